@@ -6,14 +6,33 @@
 //@ splice-item quic/s2n-quic-core/src/varint/mod.rs "pub const MAX_VARINT_VALUE: u64"
 
 //@ splice-item quic/s2n-quic-core/src/varint/mod.rs "pub struct VarIntError;"
-//@ splice-item quic/s2n-quic-core/src/varint/mod.rs "pub struct VarInt("
+//@ splice-item quic/s2n-quic-core/src/varint/mod.rs "pub struct VarInt(" derive=Clone,Copy,PartialEq,Eq,PartialOrd,Ord,Structural "subst=( u64)=>(pub u64)"
 
-// Assumed contract on a std function Verus has no specification for (listed in the evidence as trusted):
+use vstd::std_specs::cmp::{OrdSpec, PartialOrdSpec};
+
+// TRUSTED (language semantics): `#[derive(PartialOrd, Ord)]` on the single-field tuple struct VarInt(u64) is
+// the order of the field.  vstd's PartialOrdSpecImpl/OrdSpecImpl are the hooks through which Verus is told.
+impl vstd::std_specs::cmp::PartialOrdSpecImpl for VarInt {
+    open spec fn obeys_partial_cmp_spec() -> bool { true }
+    open spec fn partial_cmp_spec(&self, other: &VarInt) -> Option<core::cmp::Ordering> {
+        if self.0 < other.0 { Some(core::cmp::Ordering::Less) } else if self.0 == other.0 { Some(core::cmp::Ordering::Equal) } else { Some(core::cmp::Ordering::Greater) }
+    }
+}
+impl vstd::std_specs::cmp::OrdSpecImpl for VarInt {
+    open spec fn obeys_cmp_spec() -> bool { true }
+    open spec fn cmp_spec(&self, other: &VarInt) -> core::cmp::Ordering {
+        if self.0 < other.0 { core::cmp::Ordering::Less } else if self.0 == other.0 { core::cmp::Ordering::Equal } else { core::cmp::Ordering::Greater }
+    }
+}
+// Assumed contracts on std functions Verus has no specification for (listed in the evidence as trusted):
+pub assume_specification<T: Ord> [core::cmp::min] (a: T, b: T) -> (r: T)
+    ensures T::obeys_cmp_spec() ==> r == (if a.cmp_spec(&b) == core::cmp::Ordering::Greater { b } else { a });
+pub assume_specification<T: Ord> [core::cmp::max] (a: T, b: T) -> (r: T)
+    ensures T::obeys_cmp_spec() ==> r == (if a.cmp_spec(&b) == core::cmp::Ordering::Greater { a } else { b });
+
 pub assume_specification<T, E> [core::result::Result::<T, E>::unwrap_or] (r: Result<T, E>, d: T) -> (o: T)
     ensures o == (match r { Ok(v) => v, Err(_) => d });
 
-impl Clone for VarInt { fn clone(&self) -> Self { VarInt(self.0) } }
-impl Copy for VarInt {}
 impl Clone for VarIntError { fn clone(&self) -> Self { VarIntError } }
 impl Copy for VarIntError {}
 
@@ -63,4 +82,23 @@ impl VarInt {
 //@| ensures
 //@|     self.0 * value.0 <= MAX_VARINT_VALUE ==> ret == Some(VarInt((self.0 * value.0) as u64)),
 //@|     self.0 * value.0 > MAX_VARINT_VALUE ==> ret is None,
+
+// Operator impls of VarInt, spliced from the `impl core::ops::* for VarInt` blocks and placed here as
+// inherent functions (Verus attaches its own fixed specs to the operator traits); callers are desugared
+// (`a -= b` => `a.sub_assign(b)`) by stated substitutions.
+//@ splice-fn quic/s2n-quic-core/src/varint/mod.rs "core::ops::SubAssign<Self> for VarInt" sub_assign vis=strip
+//@| requires old(self).0 >= rhs.0,
+//@| ensures final(self).0 == old(self).0 - rhs.0,
+
+//@ splice-fn quic/s2n-quic-core/src/varint/mod.rs "core::ops::AddAssign<Self> for VarInt" add_assign vis=strip
+//@| requires old(self).0 + rhs.0 <= MAX_VARINT_VALUE,
+//@| ensures final(self).0 == old(self).0 + rhs.0,
+
+//@ splice-fn quic/s2n-quic-core/src/varint/mod.rs "core::ops::Sub for VarInt" sub vis=strip
+//@| requires self.0 >= rhs.0,
+//@| ensures ret.0 == self.0 - rhs.0,
+
+//@ splice-fn quic/s2n-quic-core/src/varint/mod.rs "core::ops::Add for VarInt" add vis=strip
+//@| requires self.0 + rhs.0 <= MAX_VARINT_VALUE,
+//@| ensures ret.0 == self.0 + rhs.0,
 }
